@@ -452,6 +452,83 @@ def r152(ctx):
     numeric_option_truthiness(ctx, "R-15.2", [PATH], "start/end classification would use the wrong interface when an interface is exactly 0.0")
 
 
+def r155(ctx):
+    """The extreme values are those of the current frames. Path.ordermin / ordermax (which the
+    start / end / crossing classification and the weights are computed from) either recompute from
+    `self.phasepoints` on every call, or - if they memoise - every site in the repository that
+    changes a path's frame list invalidates the memo before the function returns."""
+    rid = "R-15.5"
+    tree = ctx.tree
+    cls = tree.cls(PATH, "Path")
+    methods = {s.name: s for s in cls.body if isinstance(s, FUNC)}
+    memo = set()
+    for name in ("ordermin", "ordermax"):
+        g = methods.get(name)
+        if g is None:
+            raise AnalysisError(f"R-15.5: Path.{name} not found")
+        stores = set()
+        for n in walk_local(g):
+            tg = []
+            if isinstance(n, ast.Assign):
+                tg = n.targets
+            elif isinstance(n, ast.AugAssign):
+                tg = [n.target]
+            for t in tg:
+                b = t
+                while isinstance(b, ast.Subscript):
+                    b = b.value
+                if isinstance(b, ast.Attribute) and isinstance(b.value, ast.Name) and b.value.id == "self":
+                    stores.add(b.attr)
+            if isinstance(n, ast.Call) and isinstance(n.func, ast.Attribute) and n.func.attr in ("setdefault", "update", "__setitem__") and isinstance(n.func.value, ast.Attribute) and isinstance(n.func.value.value, ast.Name) and n.func.value.value.id == "self":
+                stores.add(n.func.value.attr)
+        reads_frames = any(isinstance(x, ast.Attribute) and x.attr == "phasepoints" for x in ast.walk(g))
+        if not stores:
+            if reads_frames:
+                ctx.ok(rid, g, f"Path.{name} is computed from self.phasepoints on every call (no memo)")
+            else:
+                ctx.bad(rid, g, f"Path.{name} is not computed from the path's frames", construct=f"Path.{name}")
+        memo |= stores
+    if not memo:
+        return
+    # memoised: who changes the frame list, and do they invalidate?
+    MUT = ("append", "extend", "insert", "pop", "remove", "clear", "reverse", "sort")
+    n_bad = 0
+    for m, q, f in tree.all_funcs():
+        if m.rel.startswith("infretis/tools"):
+            continue
+        cfg = None
+        for n in walk_local(f):
+            obj = None
+            if isinstance(n, (ast.Assign, ast.AugAssign)):
+                tg = n.targets if isinstance(n, ast.Assign) else [n.target]
+                for t in tg:
+                    b = t
+                    while isinstance(b, ast.Subscript):
+                        b = b.value
+                    if isinstance(b, ast.Attribute) and b.attr == "phasepoints":
+                        obj = ast.unparse(b.value)
+            if isinstance(n, ast.Call) and isinstance(n.func, ast.Attribute) and n.func.attr in MUT and isinstance(n.func.value, ast.Attribute) and n.func.value.attr == "phasepoints":
+                obj = ast.unparse(n.func.value.value)
+            if obj is None:
+                continue
+            if q == "Path.__init__":
+                continue
+            if cfg is None:
+                cfg = cfg_of(f)
+            inval = []
+            for x in walk_local(f):
+                if isinstance(x, ast.Call) and isinstance(x.func, ast.Attribute) and x.func.attr == "clear" and isinstance(x.func.value, ast.Attribute) and x.func.value.attr in memo and ast.unparse(x.func.value.value) == obj:
+                    inval.append(cfg.node_of(x))
+                if isinstance(x, ast.Assign) and any(isinstance(t, ast.Attribute) and t.attr in memo and ast.unparse(t.value) == obj for t in x.targets):
+                    inval.append(cfg.node_of(x))
+            at = cfg.node_of(n)
+            if inval and not cfg.reaches(at, cfg.exit, avoid=inval, labels_excluded=("exc",)):
+                ctx.ok(rid, n, f"{q}: the frame list of `{obj}` is changed and the memoised extremes are invalidated before the function returns")
+            else:
+                n_bad += 1
+                ctx.bad(rid, n, f"Path.ordermin / ordermax memoise their result in {sorted(memo)}, but {q} changes the frame list of `{obj}` (`{short(n, 50)}`) without invalidating it: the classification (crossing, middle) and the weights are then computed from the extremes of an earlier frame list while start / end use the real frames", construct=f"{q}: frames changed, memo {sorted(memo)} kept")
+
+
 def run(ctx):
     ctx.rule("R-15.2", "optional interface parameters of the classification functions are tested with `is None`, never by truthiness (an interface at 0.0 is a legal value)", floor=2)
     ctx.rule("R-15.4", "crossing test and start/end classifiers agree on a frame exactly on an interface (inclusive end point <=> inclusive upper bound of `min < l <= max`)", floor=2)
@@ -461,9 +538,13 @@ def run(ctx):
     ctx.attempt(r152, ctx)
     ctx.attempt(r153, ctx)
     ctx.attempt(r154, ctx)
+    ctx.rule("R-15.5", "the extreme values used by the classification are those of the current frames: recomputed on every call, or memoised with invalidation at every site that changes a frame list", floor=2)
+    ctx.attempt(r155, ctx)
 
 
 VARIANTS = [
+    B("c15-extremes-memoised-without-invalidation", PATH, '        idx = np.argmin([i.order[0] for i in self.phasepoints])\n        return (self.phasepoints[idx].order[0], idx)', '        if "min" not in self._extremes:\n            idx = np.argmin([i.order[0] for i in self.phasepoints])\n            self._extremes["min"] = (self.phasepoints[idx].order[0], idx)\n        return self._extremes["min"]', "R-15.5", control=True, why="seeded C15_g",
+      also=[(PATH, '        self.time_origin = time_origin\n', '        self.time_origin = time_origin\n        self._extremes = {}\n'), (PATH, '            self.phasepoints.append(phasepoint)\n            return True', '            self.phasepoints.append(phasepoint)\n            self._extremes.clear()\n            return True')]),
     B("c15-paste-slice-off-by-one", PATH, '    first = True\n    for phasepoint in path_forw.phasepoints:\n        if first and overlap:\n            first = False\n            continue\n        app = new_path.append(phasepoint)\n        if not app:\n            msg = f"Truncated path at: {new_path.length}"\n            logger.warning(msg)\n            return new_path\n    return new_path\n', '    start = 1 if overlap else 0\n    stop = None if maxlen is None else maxlen - new_path.length + 1\n    new_path.phasepoints.extend(path_forw.phasepoints[start:stop])\n    return new_path\n', "R-15.3", why="seeded C15_f"),
     K("c15-keep-paste-slice-form", PATH, '    first = True\n    for phasepoint in path_forw.phasepoints:\n        if first and overlap:\n            first = False\n            continue\n        app = new_path.append(phasepoint)\n        if not app:\n            msg = f"Truncated path at: {new_path.length}"\n            logger.warning(msg)\n            return new_path\n    return new_path\n', '    start = 1 if overlap else 0\n    stop = None if maxlen is None else maxlen - new_path.length + start\n    new_path.phasepoints.extend(path_forw.phasepoints[start:stop])\n    return new_path\n'),
     B("c15-cross-strict-upper", PATH, "        cross = [ordermin < interpos <= ordermax for interpos in interfaces]", "        cross = [ordermin < interpos < ordermax for interpos in interfaces]", "R-15.4", control=True, why="seeded C15_c"),
